@@ -151,7 +151,7 @@ func c20SearchInLoop(c *Ctx, p *core.Prog) {
 			}
 		}
 	}
-	r.Floor("search-in-loop", n, 2, "suffix searches inside loops")
+	r.Floor("search-in-loop", n, 1, "suffix searches inside loops")
 }
 
 var _ = token.ADD
@@ -242,7 +242,7 @@ func c20AccumulatorScan(c *Ctx, p *core.Prog) {
 		}
 	}
 	r.OK("accumulator-scan", "scan", "-", sprintf("%d appending loops examined, %d re-scans of the accumulated slice", loops, n))
-	r.Floor("accumulator-scan", loops, 20, "loops that append to a loop-carried slice")
+	r.Floor("accumulator-scan", loops, 15, "loops that append to a loop-carried slice")
 }
 
 func feedsFromAppend(v ssa.Value, ph *ssa.Phi, depth int, seen map[ssa.Value]bool) bool {
